@@ -345,6 +345,34 @@ func extractPipeline() (string, error) {
 			return "", fmt.Errorf("bindQueryParams not emitted")
 		}
 		lookup, listRange, listArg, singleArg := "", "", "", ""
+		absentTest, absentRequiredTest, absentOtherwise, absentRequiredReturns := "", "", "", false
+		ast.Inspect(fd.Body, func(n ast.Node) bool {
+			switch x := n.(type) {
+			case *ast.IfStmt:
+				if srcOf(x.Cond) == "len(values) == 0" && absentTest == "" {
+					absentTest = srcOf(x.Cond)
+					for _, st := range x.Body.List {
+						switch y := st.(type) {
+						case *ast.IfStmt:
+							absentRequiredTest = srcOf(y.Cond)
+							for _, in := range y.Body.List {
+								if rs, ok := in.(*ast.ReturnStmt); ok && len(rs.Results) == 1 && strings.Contains(srcOf(rs.Results[0]), "ValidationError") {
+									absentRequiredReturns = true
+								}
+							}
+						case *ast.BranchStmt:
+							absentOtherwise = y.Tok.String()
+						default:
+							absentOtherwise = "?" + srcOf(st)
+						}
+					}
+				}
+			}
+			return true
+		})
+		if absentTest == "" || absentRequiredTest == "" || absentOtherwise == "" {
+			return "", fmt.Errorf("bindQueryParams: the branch for an absent parameter has an unexpected shape (test %q, required test %q, otherwise %q)", absentTest, absentRequiredTest, absentOtherwise)
+		}
 		ast.Inspect(fd.Body, func(n ast.Node) bool {
 			switch x := n.(type) {
 			case *ast.AssignStmt:
@@ -384,6 +412,8 @@ func extractPipeline() (string, error) {
 		}
 		fmt.Fprintf(&b, "/-- bindQueryParams: where the occurrences of a parameter come from, what a `repeated` field ranges over, what each element conversion and the singular conversion are given. -/\n")
 		fmt.Fprintf(&b, "def queryValuesLookup : String := %s\ndef queryListRange : String := %s\ndef queryListElemArg : String := %s\ndef querySingularArg : String := %s\n", leanStr(lookup), leanStr(listRange), leanStr(listArg), leanStr(singleArg))
+		fmt.Fprintf(&b, "/-- bindQueryParams, a parameter without occurrences: the test, the test under which the request is refused (and whether that branch returns a ValidationError), what happens otherwise. -/\n")
+		fmt.Fprintf(&b, "def queryAbsentTest : String := %s\ndef queryAbsentRequiredTest : String := %s\ndef queryAbsentRequiredReturns : Bool := %v\ndef queryAbsentOtherwise : String := %s\n", leanStr(absentTest), leanStr(absentRequiredTest), absentRequiredReturns, leanStr(absentOtherwise))
 	}
 	// 5. header validators: type switch and format switch
 	for _, fn := range []string{"validateHeaderValue", "validateStringHeader"} {
